@@ -95,6 +95,24 @@ fn dump_t<K: K3, V: V3>(txn: &redb3::ReadTransaction, name: &str) -> Result<Opti
             if n != out.len() as u64 {
                 return Err(format!("redb 3.0.0: table {name} len() {n} != entries {}", out.len()));
             }
+            // point lookups and bounded seeks route through the (possibly shortened) routing keys,
+            // which a full scan never compares
+            for (i, (k, v)) in out.iter().enumerate() {
+                let got = t.get(K::arg(k)).map_err(|e| e.to_string())?.map(|g| V::out(g.value()));
+                if got.as_ref() != Some(v) {
+                    return Err(format!("redb 3.0.0: table {name}: get({k:?}) does not find the entry its scan returned"));
+                }
+                if i % 4 == 0 {
+                    let first = t.range(K::arg(k)..).map_err(|e| e.to_string())?.next();
+                    let fk = match first {
+                        Some(r) => Some(K::out(r.map_err(|e| e.to_string())?.0.value())),
+                        None => None,
+                    };
+                    if fk.as_ref() != Some(k) {
+                        return Err(format!("redb 3.0.0: table {name}: range({k:?}..) starts at {fk:?}"));
+                    }
+                }
+            }
             Ok(Some(out))
         }
         Err(redb3::TableError::TableTypeMismatch { .. }) | Err(redb3::TableError::TypeDefinitionChanged { .. }) => Ok(None),
@@ -114,6 +132,15 @@ fn dump_m<K: K3, V: K3>(txn: &redb3::ReadTransaction, name: &str) -> Result<Opti
                     vs.push(V::out(v.map_err(|e| e.to_string())?.value()));
                 }
                 out.push((K::out(k.value()), vs));
+            }
+            for (k, vs) in out.iter() {
+                let mut got = vec![];
+                for v in t.get(K::arg(k)).map_err(|e| e.to_string())? {
+                    got.push(V::out(v.map_err(|e| e.to_string())?.value()));
+                }
+                if got != *vs {
+                    return Err(format!("redb 3.0.0: multimap {name}: get({k:?}) differs from what its scan returned"));
+                }
             }
             Ok(Some(out))
         }
